@@ -20,7 +20,8 @@ RULE = ('dictionaries from a grammar of the documented keys (example.yaml): 1-3 
         'ConfigurationError or success; on success the loaded connections equal an independent reading (order of '
         'transforms, defaults, no ENCR for AH, NO_ESN, selectors, ports, protocol, mode, lifetimes, dpd, index, typed '
         'identities, credentials), and loading is repeatable. Non-trivial = a fault was injected, or >= 2 connections / '
-        'protect entries; distinct by (fault kind, path, value class, shape).')
+        'protect entries; distinct by (fault kind, path, value class, shape). '
+        'A directed vocabulary stage loads every documented algorithm / group / protocol / mode name alone and in ordered pairs at connection and protect level.')
 ASSUMPTIONS = [
     'only numeric addresses are generated (host names depend on the resolver of the environment)',
     'for ill-typed values only "ConfigurationError or success without any other exception" is asserted, plus '
@@ -335,7 +336,7 @@ def alg_list(names, mx=3):
 
 
 def dh_list():
-    return st.lists(st.sampled_from([14, 19, '14', '21', 'modp2048', 'ecp384', 18, '15', 'ecp256', 20]), min_size=1, max_size=3)
+    return st.lists(st.sampled_from(sorted(DHN) + [14, 19, 18, 20]), min_size=1, max_size=3)
 
 
 @st.composite
@@ -473,7 +474,49 @@ def worker(task):
     return st_
 
 
+def vocabulary_cases():
+    """every documented name of every vocabulary, alone and next to a second one (order), at connection and protect level"""
+    vocab = {'encr': ['aes128', 'aes256'], 'integ': ['sha1', 'sha256', 'sha512'], 'prf': ['sha1', 'sha256', 'sha512'], 'dh': sorted(DHN)}
+    out = []
+
+    def mk(conn_extra, prot_extra):
+        c = {'my_addr': '10.0.0.1', 'peer_addr': '10.0.0.2', 'my_auth': {'id': 'alice@example.org', 'psk': 'k1'},
+             'peer_auth': {'id': 'bob@example.org', 'psk': 'k2'}, 'protect': [dict(prot_extra)]}
+        c.update(conn_extra)
+        return {'conns': {'conn0': c}, 'listen': ['10.0.0.1'], 'alias': False, 'edits': [], 'fault': 'none'}
+    for k, names in vocab.items():
+        for n1 in names:
+            out.append(mk({k: [n1]}, {}))
+            if k != 'prf':
+                out.append(mk({}, {k: [n1]}))
+                out.append(mk({}, {k: [n1], 'ipsec_proto': 'ah'}))
+            for n2 in names:
+                if n2 != n1:
+                    out.append(mk({k: [n1, n2]}, {k: [n2, n1]} if k != 'prf' else {}))
+    for k, names in (('ip_proto', sorted(IPPROTO)), ('mode', ['tunnel', 'transport']), ('ipsec_proto', ['esp', 'ah'])):
+        for n1 in names:
+            out.append(mk({}, {k: n1}))
+    return out
+
+
+def vocab_worker(chunk):
+    st_ = Stats()
+    for case in chunk:
+        fails = body(case, st_)
+        st_.klass('vocabulary')
+        for f in fails:
+            if common.KNOWN.is_open('C19', f.sig):
+                st_.excluded[f.sig] += 1
+            elif not any(g.sig == f.sig for g in st_.failures):
+                st_.failures.append(f)
+    return st_
+
+
 def run(ctx):
+    vc = vocabulary_cases()
+    for st_ in pmap(vocab_worker, [vc[i::common.NCPU] for i in range(common.NCPU)]):
+        ctx.stats.merge(st_)
+    ctx.extra['vocabulary'] = f'{len(vc)} directed cases: every documented algorithm / group / protocol / mode name alone and in ordered pairs'
     n = 700 if ctx.quick else 25000
     for st_ in pmap(worker, [(n, ctx.seed * 64 + i) for i in range(common.NCPU)]):
         ctx.stats.merge(st_)
